@@ -113,42 +113,139 @@ def gen_sep(rng, big):
     return case
 
 
-def gen_uns(rng, big):
-    n = int(rng.integers(4, 25 if big else 13))
-    while True:
-        pts = sorted(set((dyadic(rng, -4, 4, 3), dyadic(rng, -4, 4, 3)) for _ in range(n)))
-        pts = [list(p) for p in pts]
-        if len(pts) >= 3:
-            a = np.array(pts)
-            if np.linalg.matrix_rank(a[1:] - a[0]) == 2:
+CLOUD_STYLES = ['scattered', 'scattered', 'scattered', 'lattice', 'lattice', 'lattice', 'partial-lattice',
+                'lines', 'shared-coords', 'collinear']
+LATTICE_ORDERS = ['native', 'y-fastest', 'rows-reversed', 'columns-reversed', 'both-reversed', 'shuffled', 'y-fastest-reversed']
+
+
+def _rank2(pts):
+    a = np.array(pts, dtype=float)
+    return len(pts) >= 3 and np.linalg.matrix_rank(a[1:] - a[0]) == 2
+
+
+def gen_cloud(rng, big, style):
+    """Point clouds stored as UNSTRUCTURED grids.  Besides generic scattered points: full lattices in every storage
+    order, lattices with holes, points on a few lines, points sharing coordinates per axis, fully collinear clouds."""
+    info = {}
+    if style == 'scattered':
+        n = int(rng.integers(4, 25 if big else 13))
+        while True:
+            pts = sorted(set((dyadic(rng, -4, 4, 3), dyadic(rng, -4, 4, 3)) for _ in range(n)))
+            pts = [list(q) for q in pts]
+            if _rank2(pts):
                 break
-    rng.shuffle(pts)
+        rng.shuffle(pts)
+    elif style in ('lattice', 'partial-lattice'):
+        hi = 6 if big else 5
+        nx, ny = int(rng.integers(2, hi + 1)), int(rng.integers(2, hi + 1))
+        if rng.random() < 0.5:
+            dx, dy = float(rng.choice([0.5, 1.0, 1.5])), float(rng.choice([0.5, 1.0, 1.25]))
+            x0, y0 = dyadic(rng, -3, 3, 2), dyadic(rng, -3, 3, 2)
+            xs, ys = [x0 + dx * i for i in range(nx)], [y0 + dy * i for i in range(ny)]
+        else:
+            xs, ys = gen_knots(rng, nx), gen_knots(rng, ny)
+        order = str(rng.choice(LATTICE_ORDERS))
+        info['order'] = order
+        info['lattice_dims'] = [nx, ny]
+        rows = [[[x, y] for x in xs] for y in ys]                  # native: x fastest, both ascending
+        if order == 'native':
+            pts = [q for r in rows for q in r]
+        elif order == 'y-fastest':
+            pts = [[x, y] for x in xs for y in ys]
+        elif order == 'y-fastest-reversed':
+            pts = [[x, y] for x in xs[::-1] for y in ys]
+        elif order == 'rows-reversed':
+            pts = [q for r in rows[::-1] for q in r]
+        elif order == 'columns-reversed':
+            pts = [q for r in rows for q in r[::-1]]
+        elif order == 'both-reversed':
+            pts = [q for r in rows[::-1] for q in r[::-1]]
+        else:
+            pts = [q for r in rows for q in r]
+            rng.shuffle(pts)
+        if style == 'partial-lattice':
+            for _ in range(20):
+                k = int(rng.integers(1, max(2, len(pts) // 3)))
+                drop = set(int(t) for t in rng.choice(len(pts), size=k, replace=False))
+                cand = [q for i, q in enumerate(pts) if i not in drop]
+                if _rank2(cand) and len(cand) >= 4:
+                    pts = cand
+                    break
+    elif style == 'lines':
+        # collinear subsets: a horizontal, a vertical and a diagonal run of points (+ a few free ones)
+        while True:
+            pts = set()
+            x0, y0 = dyadic(rng, -2, 2, 2), dyadic(rng, -2, 2, 2)
+            for i in range(int(rng.integers(2, 6))):
+                pts.add((x0 + 0.5 * i, y0))
+            for i in range(int(rng.integers(2, 6))):
+                pts.add((x0, y0 + 0.75 * i))
+            if rng.random() < 0.6:
+                for i in range(int(rng.integers(2, 5))):
+                    pts.add((x0 + 0.5 * i, y0 + 0.5 * i))
+            for _ in range(int(rng.integers(0, 3))):
+                pts.add((dyadic(rng, -3, 3, 3), dyadic(rng, -3, 3, 3)))
+            pts = [list(q) for q in sorted(pts)]
+            if _rank2(pts):
+                break
+        rng.shuffle(pts)
+    elif style == 'shared-coords':
+        # every coordinate value is shared by several points, but the cloud is not a full lattice
+        while True:
+            xs = gen_knots(rng, int(rng.integers(2, 5)))
+            ys = gen_knots(rng, int(rng.integers(2, 5)))
+            n = int(rng.integers(4, 2 + len(xs) * len(ys)))
+            pts = sorted(set((float(rng.choice(xs)), float(rng.choice(ys))) for _ in range(n)))
+            pts = [list(q) for q in pts]
+            if _rank2(pts):
+                break
+        rng.shuffle(pts)
+    else:   # collinear: no triangulation exists, only the nearest interpolator is defined
+        n = int(rng.integers(2, 8))
+        x0, y0 = dyadic(rng, -2, 2, 2), dyadic(rng, -2, 2, 2)
+        ux, uy = [(1.0, 0.0), (0.0, 1.0), (0.5, 0.5), (1.0, -0.5), (0.25, 0.75)][int(rng.integers(0, 5))]
+        ts = sorted(set(int(t) for t in rng.integers(-6, 7, n)))
+        if len(ts) < 2:
+            ts = [0, 3]
+        pts = [[x0 + ux * t, y0 + uy * t] for t in ts]
+        rng.shuffle(pts)
+    return [list(map(float, q)) for q in pts], info
+
+
+def gen_uns(rng, big):
+    style = str(rng.choice(CLOUD_STYLES))
+    pts, info = gen_cloud(rng, big, style)
     affine = bool(rng.random() < 0.6)
-    case = {'fam': 'uns', 'pts_src': pts}
+    case = {'fam': 'uns', 'pts_src': pts, 'cloud': style}
+    case.update(info)
     if affine:
         c0, c = affine_coeffs(rng, 2)
         case['affine'] = [c0, c]
     else:
         case['vals'] = [dyadic(rng, -8, 8, 3) for _ in range(len(pts))]
-    m = int(rng.integers(1, 9))
     ev = []
-    for _ in range(m):
-        u = rng.random()
-        if u < 0.2:
-            ev.append(list(pts[int(rng.integers(0, len(pts)))]))          # a sample point
-        elif u < 0.85:
-            i, j, k = [int(t) for t in rng.integers(0, len(pts), 3)]
-            w = rng.integers(0, 9, 3)
-            if w.sum() == 0:
-                w[0] = 1
-            tot = 8
-            # weights a/8, b/8, (8-a-b)/8 >= 0
-            a = int(rng.integers(0, 9)); b = int(rng.integers(0, 9 - a)); c = tot - a - b
-            ev.append([(a * pts[i][0] + b * pts[j][0] + c * pts[k][0]) / 8.0, (a * pts[i][1] + b * pts[j][1] + c * pts[k][1]) / 8.0])
-        else:
-            ev.append([dyadic(rng, -5, 5, 3), dyadic(rng, -5, 5, 3)])     # anywhere (maybe outside the hull)
+    if rng.random() < (0.2 if style == 'scattered' else 0.4):
+        case['eval_self'] = True             # evaluate on the source grid itself (every sample point)
+        ev = [list(q) for q in pts]
+    else:
+        m = int(rng.integers(1, 9))
+        for _ in range(m):
+            u = rng.random()
+            if u < 0.2:
+                ev.append(list(pts[int(rng.integers(0, len(pts)))]))          # a sample point
+            elif u < 0.85:
+                i, j, k = [int(t) for t in rng.integers(0, len(pts), 3)]
+                # weights a/8, b/8, (8-a-b)/8 >= 0
+                a = int(rng.integers(0, 9)); b = int(rng.integers(0, 9 - a)); c = 8 - a - b
+                ev.append([(a * pts[i][0] + b * pts[j][0] + c * pts[k][0]) / 8.0, (a * pts[i][1] + b * pts[j][1] + c * pts[k][1]) / 8.0])
+            else:
+                ev.append([dyadic(rng, -5, 5, 3), dyadic(rng, -5, 5, 3)])     # anywhere (maybe outside the hull)
     case['pts'] = ev
-    case['route'] = str(rng.choice(['dispatch', 'unstructured-default', 'unstructured-fill0']))
+    if style == 'scattered':
+        case['route'] = str(rng.choice(['dispatch', 'unstructured-default', 'unstructured-fill0']))
+    else:
+        # structured / degenerate clouds always go through the public dispatching front ends
+        case['route'] = str(rng.choice(['dispatch', 'dispatch', 'dispatch-fill0', 'dispatch-grid-arg', 'unstructured-default']))
     return case
 
 
@@ -354,20 +451,30 @@ def run_uns(case):
         vals = case['vals']
     field = hcipy.Field(np.array(vals, dtype=float), grid)
     pts = case['pts']
-    egrid = hcipy.CartesianGrid(hcipy.UnstructuredCoords([np.array([p[0] for p in pts]), np.array([p[1] for p in pts])]))
+    if case.get('eval_self'):
+        egrid = grid
+    else:
+        egrid = hcipy.CartesianGrid(hcipy.UnstructuredCoords([np.array([p[0] for p in pts]), np.array([p[1] for p in pts])]))
     route = case['route']
     got = None
-    try:
-        if route == 'dispatch':
-            interp = hcipy.make_linear_interpolator(field)
-        elif route == 'unstructured-default':
-            interp = hcipy.make_linear_interpolator_unstructured(field)
-        else:
-            interp = hcipy.make_linear_interpolator_unstructured(np.array(vals, dtype=float), grid, 0)
-    except Exception as e:  # noqa
-        key = 'unstructured-linear-default-fill' if route == 'dispatch' else 'unstructured-linear'
-        bad.append((key, 'make_linear_interpolator (%s) on an unstructured grid raised %s: %s' % (route, type(e).__name__, str(e)[:100])))
-        interp = None
+    collinear = case.get('cloud') == 'collinear'
+    interp = None
+    if not collinear:
+        try:
+            if route == 'dispatch':
+                interp = hcipy.make_linear_interpolator(field)
+            elif route == 'dispatch-fill0':
+                interp = hcipy.make_linear_interpolator(field, fill_value=0)
+            elif route == 'dispatch-grid-arg':
+                interp = hcipy.make_linear_interpolator(np.array(vals, dtype=float), grid)
+            elif route == 'unstructured-default':
+                interp = hcipy.make_linear_interpolator_unstructured(field)
+            else:
+                interp = hcipy.make_linear_interpolator_unstructured(np.array(vals, dtype=float), grid, 0)
+        except Exception as e:  # noqa
+            key = 'unstructured-linear-default-fill' if (route.startswith('dispatch') and 'Extrapolation' in str(e)) else 'unstructured-linear'
+            bad.append((key, 'make_linear_interpolator (%s) on an unstructured grid (%s cloud) raised %s: %s' % (route, case.get('cloud', 'scattered'), type(e).__name__, str(e)[:100])))
+            interp = None
     tri = None
     if interp is not None:
         try:
@@ -380,76 +487,87 @@ def run_uns(case):
             bad.append(('unstructured-linear', 'linear interpolator on an unstructured grid raised %s' % type(e).__name__))
         sci = find_scipy_interp(interp)
         tri = sci.tri if sci is not None else None
-    if tri is None:
-        import scipy.spatial
-        tri = scipy.spatial.Delaunay(np.array(src, dtype=float))
-    simp = tri.find_simplex(np.array(pts, dtype=float))
-    # exact location of every evaluation point with respect to the convex hull (Fractions)
-    fsrc2 = [frl(p) for p in src]
-    simplices = [[int(v) for v in sx] for sx in tri.simplices]
-    hull_edges = [[int(v) for v in e] for e in tri.convex_hull]
+    inside, boundary = [], []
+    if not collinear:
+        have_scipy_object = tri is not None
+        if tri is None:
+            import scipy.spatial
+            tri = scipy.spatial.Delaunay(np.array(src, dtype=float))
+        simp = tri.find_simplex(np.array(pts, dtype=float))
+        # exact location of every evaluation point with respect to the convex hull (Fractions)
+        fsrc2 = [frl(p) for p in src]
+        simplices = [[int(v) for v in sx] for sx in tri.simplices]
+        hull_edges = [[int(v) for v in e] for e in tri.convex_hull]
 
-    def bary(sx, fp):
-        (ax, ay), (bx, by), (cx, cy) = [fsrc2[v] for v in sx]
-        det = (bx - ax) * (cy - ay) - (cx - ax) * (by - ay)
-        if det == 0:
-            return None
-        l1 = ((fp[0] - ax) * (cy - ay) - (cx - ax) * (fp[1] - ay)) / det
-        l2 = ((bx - ax) * (fp[1] - ay) - (fp[0] - ax) * (by - ay)) / det
-        return [1 - l1 - l2, l1, l2]
+        def bary(sx, fp):
+            (ax, ay), (bx, by), (cx, cy) = [fsrc2[v] for v in sx]
+            det = (bx - ax) * (cy - ay) - (cx - ax) * (by - ay)
+            if det == 0:
+                return None
+            l1 = ((fp[0] - ax) * (cy - ay) - (cx - ax) * (fp[1] - ay)) / det
+            l2 = ((bx - ax) * (fp[1] - ay) - (fp[0] - ax) * (by - ay)) / det
+            return [1 - l1 - l2, l1, l2]
 
-    def in_closed_hull(fp):
-        for sx in simplices:
-            lam = bary(sx, fp)
-            if lam is not None and all(x >= 0 for x in lam):
-                return True
-        return False
-
-    def on_hull_boundary(fp):
-        for i, j in hull_edges:
-            (ax, ay), (bx, by) = fsrc2[i], fsrc2[j]
-            cr = (bx - ax) * (fp[1] - ay) - (by - ay) * (fp[0] - ax)
-            if cr == 0:
-                t = (fp[0] - ax) * (bx - ax) + (fp[1] - ay) * (by - ay)
-                if 0 <= t <= (bx - ax) ** 2 + (by - ay) ** 2:
+        def in_closed_hull(fp):
+            for sx in simplices:
+                lam = bary(sx, fp)
+                if lam is not None and all(x >= 0 for x in lam):
                     return True
-        return False
+            return False
 
-    inside = [in_closed_hull(frl(p)) for p in pts]
-    boundary = [ins and on_hull_boundary(frl(p)) for ins, p in zip(inside, pts)]
-    fillv = 0.0 if route == 'unstructured-fill0' else None
-    if got is not None:
-        lookup = {tuple(p): v for p, v in zip(src, vals)}
-        reported = set()
-        for g, p, ins, bnd, sx in zip(got, pts, inside, boundary, simp):
-            key = 'unstructured-linear-hull-boundary' if bnd else 'unstructured-linear'
-            what = None
-            if ins:
-                if 'affine' in case:
-                    w = float(aff(c0, c, p))
-                    if not abs(g - w) <= TOL * max(1.0, abs(w)):
-                        what = 'affine field not reproduced at %r %s of a scattered grid: got %r, expected %r' % (
-                            p, 'on the boundary of the hull' if bnd else 'inside the hull', g, w)
-                if what is None and tuple(p) in lookup and not abs(g - lookup[tuple(p)]) <= TOL * max(1.0, abs(lookup[tuple(p)])):
-                    what = 'sample value not returned at the sample point %r%s of a scattered grid: got %r' % (
-                        p, ' (a vertex of the hull)' if bnd else '', g)
-                if what is None and int(sx) < 0:
-                    what = 'point %r %s got the fill value' % (p, 'on the boundary of the hull' if bnd else 'inside the hull')
-            else:
-                if (fillv is None and g == g) or (fillv is not None and g != fillv):
-                    what = 'point %r outside the hull did not get the fill value' % (p,)
-            if what is not None and key not in reported:
-                reported.add(key)
-                bad.append((key, what))
-            if int(sx) >= 0 and what is None:
-                vs = [int(v) for v in tri.simplices[int(sx)]]
-                t = [src[v][k] for v in vs for k in (0, 1)]
-                lines.append('C18 lin-tri %s %s %s' % (rat_list(t), rat_list([vals[v] for v in vs]), rat_list(p)))
-                cmps.append(('lin-tri', [g], {'nan': None}))
+        def on_hull_boundary(fp):
+            for i, j in hull_edges:
+                (ax, ay), (bx, by) = fsrc2[i], fsrc2[j]
+                cr = (bx - ax) * (fp[1] - ay) - (by - ay) * (fp[0] - ax)
+                if cr == 0:
+                    t = (fp[0] - ax) * (bx - ax) + (fp[1] - ay) * (by - ay)
+                    if 0 <= t <= (bx - ax) ** 2 + (by - ay) ** 2:
+                        return True
+            return False
+
+        inside = [in_closed_hull(frl(p)) for p in pts]
+        boundary = [ins and on_hull_boundary(frl(p)) for ins, p in zip(inside, pts)]
+        fillv = 0.0 if route in ('unstructured-fill0', 'dispatch-fill0') else None
+        if got is not None:
+            lookup = {tuple(p): v for p, v in zip(src, vals)}
+            reported = set()
+            for g, p, ins, bnd, sx in zip(got, pts, inside, boundary, simp):
+                # the recorded SciPy finding has a precise signature: a point on the hull boundary that SciPy's point
+                # location reports outside, and that therefore gets the fill value; anything else is a plain failure
+                is_fill = (g != g) if fillv is None else (g == fillv)
+                key = 'unstructured-linear-hull-boundary' if (bnd and int(sx) < 0 and is_fill) else 'unstructured-linear'
+                what = None
+                if ins:
+                    if 'affine' in case:
+                        w = float(aff(c0, c, p))
+                        if not abs(g - w) <= TOL * max(1.0, abs(w)):
+                            what = 'affine field not reproduced at %r %s of a scattered grid: got %r, expected %r' % (
+                                p, 'on the boundary of the hull' if bnd else 'inside the hull', g, w)
+                    if what is None and tuple(p) in lookup and not abs(g - lookup[tuple(p)]) <= TOL * max(1.0, abs(lookup[tuple(p)])):
+                        what = 'sample value not returned at the sample point %r%s of a scattered grid: got %r' % (
+                            p, ' (a vertex of the hull)' if bnd else '', g)
+                    if what is None and int(sx) < 0:
+                        what = 'point %r %s got the fill value' % (p, 'on the boundary of the hull' if bnd else 'inside the hull')
+                else:
+                    if (fillv is None and g == g) or (fillv is not None and g != fillv):
+                        what = 'point %r outside the hull did not get the fill value' % (p,)
+                if what is not None and key not in reported:
+                    reported.add(key)
+                    bad.append((key, what))
+                if int(sx) >= 0 and what is None and (have_scipy_object or case.get('cloud', 'scattered') == 'scattered'):
+                    vs = [int(v) for v in tri.simplices[int(sx)]]
+                    t = [src[v][k] for v in vs for k in (0, 1)]
+                    lines.append('C18 lin-tri %s %s %s' % (rat_list(t), rat_list([vals[v] for v in vs]), rat_list(p)))
+                    cmps.append(('lin-tri', [g], {'nan': None}))
     # ---- nearest
     gotn = None
     try:
-        interp = hcipy.make_nearest_interpolator(field) if route == 'dispatch' else hcipy.make_nearest_interpolator_unstructured(field)
+        if route == 'dispatch-grid-arg':
+            interp = hcipy.make_nearest_interpolator(np.array(vals, dtype=float), grid)
+        elif route.startswith('dispatch'):
+            interp = hcipy.make_nearest_interpolator(field)
+        else:
+            interp = hcipy.make_nearest_interpolator_unstructured(field)
         res = interp(egrid)
         gotn = to_list(res)
         if len(gotn) != len(pts) or getattr(res, 'grid', None) is not egrid:
@@ -632,6 +750,15 @@ DIRECTED = [
     {'fam': 'uns', 'pts_src': [[0.75, 2.25], [4.0, 2.375], [-0.625, 0.375], [0.375, 3.875], [-0.625, -1.25], [1.875, -3.5], [1.625, -0.25],
                                [2.0, -3.125], [-1.25, -1.125], [-3.5, 1.5], [-0.5, -3.125]], 'affine': [2.0, [1.0, -3.0]],
      'pts': [[-4.125, 3.0], [1.875, -3.5], [-0.5, 2.0], [0.75, -1.734375], [1.625, -0.25], [0.859375, 1.78125]], 'route': 'unstructured-fill0'},
+    # structured clouds stored as unstructured grids (seeded defect C18-3: a lattice "fast path" that assumes native order)
+    {'fam': 'uns', 'cloud': 'lattice', 'order': 'y-fastest', 'pts_src': [[x, y] for x in (0.0, 1.0, 2.0, 4.0) for y in (0.0, 1.0, 3.0)],
+     'affine': [1.0, [2.0, 3.0]], 'eval_self': True, 'pts': [[x, y] for x in (0.0, 1.0, 2.0, 4.0) for y in (0.0, 1.0, 3.0)], 'route': 'dispatch'},
+    {'fam': 'uns', 'cloud': 'lattice', 'order': 'rows-reversed', 'pts_src': [[x, y] for y in (2.0, 1.0, 0.0) for x in (0.0, 1.0, 2.0)],
+     'vals': [5.0, 1.0, -2.0, 0.5, 4.0, 8.0, 3.0, -1.0, 2.0], 'pts': [[1.0, 1.0], [0.5, 1.5], [1.75, 0.25], [0.0, 2.0]], 'route': 'dispatch'},
+    {'fam': 'uns', 'cloud': 'lattice', 'order': 'native', 'pts_src': [[x, y] for y in (0.0, 1.0, 2.0) for x in (0.0, 1.0, 2.0)],
+     'affine': [0.5, [1.0, -2.0]], 'pts': [[1.0, 1.0], [0.5, 1.5], [1.75, 0.25], [3.0, 3.0]], 'route': 'dispatch-fill0'},
+    {'fam': 'uns', 'cloud': 'collinear', 'pts_src': [[0.0, 0.0], [2.0, 1.0], [1.0, 0.5], [-1.0, -0.5]], 'vals': [1.0, 2.0, 3.0, 4.0],
+     'pts': [[0.5, 0.25], [1.75, 1.0], [-3.0, 2.0], [0.0, 0.0]], 'route': 'dispatch'},
     {'fam': 'bin', 'dims': [2, 1], 's': 2, 'tshape': [], 'regular': True, 'delta': [1.0, 1.0], 'stat': 'sum', 'vals': [1.0, 2, 3, 4, 5, 6, 7, 8], 'give_grid': False},
     {'fam': 'bin', 'dims': [2, 3], 's': 3, 'tshape': [2], 'regular': True, 'delta': [0.5, 2.0], 'stat': 'mean', 'vals': [float((7 * i) % 11) for i in range(108)], 'give_grid': True},
     {'fam': 'bin', 'dims': [2, 2], 's': 2, 'tshape': [], 'regular': False, 'axes': [[0.0, 1.0, 3.0, 3.5], [0.0, 0.5, 1.0, 4.0]], 'stat': 'mean',
@@ -660,11 +787,16 @@ def check_case(ctx, case, all_lines, index):
         sig = (fam, tuple(len(a) for a in case['axes']), case['regular'], 'affine' in case, case['eval_kind'], case['route'], info['npts'])
     elif fam == 'uns':
         ctx.count('uns:route:' + case['route'])
+        ctx.count('uns:cloud:' + case.get('cloud', 'scattered'))
+        if 'order' in case:
+            ctx.count('uns:lattice-order:' + case['order'])
+        if case.get('eval_self'):
+            ctx.count('uns:evaluated-on-source-grid')
         ctx.count('uns:points_inside_hull', info['n_inside'])
         ctx.count('uns:points_outside_hull', info['n_outside'])
         ctx.count('uns:points_on_hull_boundary', info['n_boundary'])
         ctx.count('uns:' + ('affine' if 'affine' in case else 'random-values'))
-        sig = (fam, info['n_src'], 'affine' in case, case['route'], info['npts'])
+        sig = (fam, case.get('cloud', 'scattered'), case.get('order'), info['n_src'], 'affine' in case, case['route'], info['npts'])
     elif fam == 'bin':
         ctx.count('bin:ndim=%d' % len(case['dims']))
         ctx.count('bin:s=%d' % case['s'])
